@@ -323,3 +323,34 @@ def jump_only_branch_programs():
                     src = ['নাম ন = ০;', 'লুপ {'] + ind(body) + ['} আবার;', 'দেখাও "পরে";']
                 cases.append({'src': prog(src), 'kind': 'jump-only-branch', 'alone': None})
     return cases
+
+
+# ---------------------------------------------------------------- every built-in with wrong argument counts and types
+BUILTINS = ['_স্ট্রিং', '_সংখ্যা', '_লিস্ট-পুশ', '_লিস্ট-পপ', '_লিস্ট-লেন', '_এরর', '_স্ট্রিং-স্প্লিট', '_স্ট্রিং-জয়েন', '_টাইপ']   # the file built-ins are exercised by C20 (they touch the scratch directory)
+
+
+def builtin_argument_faults():
+    """(kind, expression) pairs: each built-in called with no argument, nil, wrong types, too many arguments, and lists with
+    one element of the wrong type; whether a call is a fault is for the model to say"""
+    out = []
+    argsets = ['', 'শূ', '১', '"a"', 'সত্য', '[১]', '@{}', 'তা', 'রে', '১, ২', '"a", ১', '১, "a"', 'তা, "a"', '"a", তা', '["a", ১], ","', '[১, "a"], ","', '["a", শূ], ","', '["a", ["b"]], ","', '["a"], ১', 'তা, তা',
+               'তা, ০, ০, ০', '"a", "b", "c"', 'শূ, শূ', 'তা, শূ', 'তা, "০"', 'তা, সত্য', 'ফ', 'ফ, ফ']
+    for name in BUILTINS:
+        for a in argsets:
+            out.append(('builtin', '%s(%s)' % (name, a)))
+    return out
+
+
+def statement_fault_programs():
+    """faults that are statements (indexed assignments through something that cannot be indexed or is not there), at
+    call depths 0-2"""
+    cases = []
+    stmts = ['রে["নাই"]["x"] = ১;', 'রে["k"]["x"] = ১;', 'তা[০][০] = ১;', 'তা[৫][০] = ১;', 'শূ[০] = ১;', 'তা["k"] = ১;', 'রে[০] = ১;', 'অঘোষিত[০] = ১;', 'ফ[০] = ১;', 'তা[০]["k"] = ১;', 'রে["নাই"][০][১] = ১;', 'তা[১][০][০] = ২;',
+             'রে["গভীর"]["নাই"]["x"] = ১;', 'তা[২][০]["নাই"]["y"] = ১;', 'সংখ্যা[০] = ১;', 'লেখা[০] = "x";', 'তা[শূ] = ১;', 'রে[শূ] = ১;', 'তা[[০]] = ১;', 'রে["k"] = অঘোষিত;', 'তা[অঘোষিত] = ১;']
+    pre = ['নাম তা = [১, [২], [[৩], @{"k" -> ১,}]];', 'নাম রে = @{"k" -> ১, "গভীর" -> @{"z" -> ২,},};', 'নাম শূ;', 'নাম সংখ্যা = ৫;', 'নাম লেখা = "abc";', 'ফাং ফ() {', '} ফেরত;', 'দেখাও "আগে";']
+    for st in stmts:
+        for depth in (0, 1, 2):
+            body = [st, 'দেখাও "লেখার পরে";']
+            for d in range(depth): body = ['ফাং স্তর%s() {' % bn(d)] + ind(['দেখাও "স্তর";'] + body) + ['} ফেরত;', 'স্তর%s();' % bn(d)]
+            cases.append({'src': prog(pre + body + ['দেখাও "পরে";']), 'kind': 'fault statement-level depth=%d' % depth})
+    return cases
